@@ -227,6 +227,9 @@ pub fn property() -> Property {
                 200_000,
                 1_500_000,
             )
+            // isolated, so that an abort of the writer (a panic while another one unwinds through
+            // its Drop) is attributed to the case and counts, instead of killing the shard
+            .with(|o| o.isolate = true)
             .boxed(),
         ],
         max_parallel: 16,
